@@ -71,7 +71,7 @@ func ageBucket(n int64) string {
 
 func runCase(c *wk.Ctx, i int) {
 	r := c.Rand(i)
-	os := model.RandomOptions(r, model.OptConstraints{})
+	os := model.RandomOptions(r, model.OptConstraints{NonInjective: true})
 	if r.Intn(2) == 0 {
 		// half of the cases use very small buffers so that hundreds of version changes happen
 		os.O.WriteBuffer = 1 << 10
